@@ -21,8 +21,8 @@
 //
 // Readings made explicit: "reaches" is reflexive (the reach set of a member's component contains the component
 // itself; CanReach(a,a) is true), as the documentation of ReachabilityCache says. OrReach/XorReach are documented to
-// leave the queried node out of the result, so the harness hands them a set that does not contain the node and
-// expects D | (reach(a) \ {a}) and D ^ (reach(a) \ {a}).
+// leave the queried node out (OrReach: out of the result; XorReach: out of the reach before the XOR); the harness calls
+// each with an accumulator that does not contain the node and with one that does.
 package main
 
 import (
@@ -70,6 +70,7 @@ type spec struct {
 	// reachOnly restricts the history alphabet to ReachOf(a, d): used for the family of all labelled 5-node graphs,
 	// where the full alphabet is too wide (the replay accepts any op name, so artefacts stay replayable)
 	reachOnly bool
+	outOnly   bool // with reachOnly: outbound queries only (the family contains every graph together with its reverse)
 }
 
 func newSpec(g graphs.Graph, profile, cont string) *spec {
@@ -319,6 +320,9 @@ func (s *spec) alphabet() []op {
 	if s.reachOnly {
 		kinds = []opKind{kReachOf}
 	}
+	if s.reachOnly && s.outOnly {
+		dirs = dirs[:1]
+	}
 	for _, k := range kinds {
 		for _, d := range dirs {
 			for a := 0; a < s.g.N; a++ {
@@ -398,13 +402,20 @@ func (in *inst) answer(o op) (got, want string) {
 			}
 			dup := cardinality.NewBitmap64With(s.maskIDs(d)...)
 			in.rc.OrReach(s.ids[o.a], o.dir, dup)
-			return fmt.Sprint(dup.Slice()), fmt.Sprint(s.maskIDs(d | others))
+			// and an accumulator that already holds a (as when folding over several nodes): "the node itself is removed
+			// from the result", so a is gone afterwards
+			dup2 := cardinality.NewBitmap64With(s.maskIDs(d | self)...)
+			in.rc.OrReach(s.ids[o.a], o.dir, dup2)
+			return fmt.Sprint(dup.Slice(), dup2.Slice()), fmt.Sprint(s.maskIDs(d|others), s.maskIDs((d|self|others)&^self))
 		}
 		// D = every node except a; expects D ^ (reach \ {a}) = the nodes a cannot reach
 		d := all &^ self
 		dup := cardinality.NewBitmap64With(s.maskIDs(d)...)
 		in.rc.XorReach(s.ids[o.a], o.dir, dup)
-		return fmt.Sprint(dup.Slice()), fmt.Sprint(s.maskIDs(d ^ others))
+		// and an accumulator that already holds a: "the node itself is removed from the reach before the XOR", so a stays
+		dup2 := cardinality.NewBitmap64With(s.maskIDs(self)...)
+		in.rc.XorReach(s.ids[o.a], o.dir, dup2)
+		return fmt.Sprint(dup.Slice(), dup2.Slice()), fmt.Sprint(s.maskIDs(d^others), s.maskIDs(self^others))
 	}
 	core.Fatalf("bad op")
 	return
@@ -513,8 +524,9 @@ type family struct {
 	Graphs   graphs.Options
 	Profiles []string
 	Depth    int
-	// ReachOnly: the history alphabet is ReachOf(a, d) only
-	ReachOnly bool
+	// ReachOnly: the history alphabet is ReachOf(a, d) only; OutOnly: d = outbound only; MinCap/MaxCap: capacities
+	ReachOnly, OutOnly bool
+	MinCap, MaxCap     int
 }
 
 type bounds struct {
@@ -557,7 +569,9 @@ func tierBounds(t core.Tier) bounds {
 			{Graphs: graphs.Options{MinNodes: 5, MaxNodes: 5, MaxEdges: 7, IsoReduce: true}, Profiles: a, Depth: 3},
 			{Graphs: graphs.Options{MinNodes: 5, MaxNodes: 5, MaxEdges: 5, IsoReduce: true}, Profiles: a, Depth: 4},
 			{Graphs: graphs.Options{MinNodes: 5, MaxNodes: 5, MaxEdges: 6}, Profiles: a, Depth: 2, ReachOnly: true},
-			{Graphs: graphs.Options{MinNodes: 6, MaxNodes: 6, MaxEdges: 6, IsoReduce: true}, Profiles: ab, Depth: 2, ReachOnly: true},
+			// every labelled loop-free 6-node digraph with <= 6 edges, capacities 2 and 3 (the smallest setting in which an entry
+			// is evicted between the two visits of a join component): outbound reach queries, two deep
+			{Graphs: graphs.Options{MinNodes: 6, MaxNodes: 6, MaxEdges: 6}, Profiles: a, Depth: 2, ReachOnly: true, OutOnly: true, MinCap: 2, MaxCap: 3},
 		},
 	}
 }
@@ -799,11 +813,14 @@ func main() {
 					return false
 				}
 				s := newSpec(g, prof, "csr")
-				s.reachOnly = fam.ReachOnly
+				s.reachOnly, s.outOnly = fam.ReachOnly, fam.OutOnly
 				s.digraph = s.build()
 				for _, c := range capacities(g.N) {
-					if fam.ReachOnly && c > 3 {
-						break // the wide labelled family: capacities 1..3 (the small families cover every capacity)
+					if fam.ReachOnly && c > 3 || fam.MaxCap > 0 && c > fam.MaxCap {
+						break // the wide labelled families: capacities up to 3 (the small families cover every capacity)
+					}
+					if c < fam.MinCap {
+						continue
 					}
 					dispatch(job{s, c, fam.Depth})
 				}
